@@ -637,3 +637,1235 @@ theorem readTypeName_name {s : St} {n x : Bytes} (hn : isTypeNameB n = true) (h 
 theorem readKeyword_lit {s : St} {k x : Bytes} (hk : ∀ c ∈ k, isLower c = true) (h : s.rest = k ++ x) (hx : Stop x)
     (hnc : NoCrash (readKeyword s)) : readKeyword s = .ok (k, s.adv k x) :=
   readKeyword_fwd h hk hx.lower hnc
+
+/-! ### field lists -/
+
+theorem noCrash_step {α β} {x : Out α} {f : α → Out β} {a : α} (h : x = .ok a) (hnc : NoCrash (x >>= f)) :
+    NoCrash (f a) := by rw [bind_ok_eq h] at hnc; exact hnc
+
+/-- `advance` where there is nothing to skip -/
+theorem advance_none {s : St} (h : TailOk s.rest) (hnc : NoCrash (advance s)) : advance s = .ok s :=
+  advanceLoop_stop h hnc
+
+theorem renderNames_head (r : List (Gap × Bytes × Gap)) (tl : Bytes) :
+    ∃ c x, renderNames r tl = c :: x ∧ (c = 44 ∨ c = 41) := by
+  cases r with
+  | nil => exact ⟨41, tl, rfl, Or.inr rfl⟩
+  | cons p r => obtain ⟨g1, n, g4⟩ := p; exact ⟨44, _, rfl, Or.inl rfl⟩
+
+theorem structTail_fuel {f : Nat} {s : St} {k : SKind} {acc : Fields} (h : NoCrash (structTail f s k acc)) :
+    ∃ f', f = f' + 1 := by
+  cases f with
+  | zero => exact absurd rfl h.2
+  | succ f' => exact ⟨f', rfl⟩
+
+theorem structLoop_fuel {f : Nat} {s : St} {k : SKind} {acc : Fields} (h : NoCrash (structLoop f s k acc)) :
+    ∃ f', f = f' + 1 := by
+  cases f with
+  | zero => exact absurd rfl h.2
+  | succ f' => exact ⟨f', rfl⟩
+
+theorem readType_fuel {f : Nat} {s : St} (h : NoCrash (readType f s)) : ∃ f', f = f' + 1 := by
+  cases f with
+  | zero => exact absurd rfl h.2
+  | succ f' => exact ⟨f', rfl⟩
+
+theorem readStructType_fuel {f : Nat} {s : St} (h : NoCrash (readStructType f s)) : ∃ f', f = f' + 1 := by
+  cases f with
+  | zero => exact absurd rfl h.2
+  | succ f' => exact ⟨f', rfl⟩
+
+/-- the names of an enum behind the first one -/
+theorem names_fwd : ∀ (r : List (Gap × Bytes × Gap)) (f : Nat) (s : St) (tail : Bytes) (acc : Fields),
+    namesFit r = true → s.rest = renderNames r tail → NoCrash (structTail f s .enum acc) →
+    ∃ s', structTail f s .enum acc = .ok (some (.enum (Fields.revAppend acc (eraseNames r))), s') ∧
+      s'.rest = tail ∧ Dirty s' := by
+  intro r
+  induction r with
+  | nil =>
+    intro f s tail acc _ h hnc
+    obtain ⟨f0, rfl⟩ := structTail_fuel hnc
+    unfold structTail at hnc ⊢
+    simp only [renderNames] at h
+    have h1 := advance_none (by rw [h]; exact tailOk_cons _ (by decide)) hnc.of_bind
+    rw [bind_ok_eq h1] at hnc ⊢
+    rw [next_cons h]
+    simp only [↓reduceIte]
+    refine ⟨s.adv [41] tail, ?_, rfl, dirty_adv (by decide)⟩
+    simp [mkFieldList, Fields.reverse, eraseNames]
+  | cons p r ih =>
+    obtain ⟨g1, n, g4⟩ := p
+    intro f s tail acc hfit h hnc
+    simp only [namesFit, Bool.and_eq_true] at hfit
+    obtain ⟨⟨⟨hg1, hn⟩, hg4⟩, hr⟩ := hfit
+    obtain ⟨f0, rfl⟩ := structTail_fuel hnc
+    unfold structTail at hnc ⊢
+    simp only [renderNames] at h
+    have h1 := advance_none (by rw [h]; exact tailOk_cons _ (by decide)) hnc.of_bind
+    rw [bind_ok_eq h1] at hnc ⊢
+    rw [next_cons h] at hnc ⊢
+    simp only [↓reduceIte] at hnc ⊢
+    -- structLoop on `g1 name g4 …`
+    obtain ⟨f1, rfl⟩ := structLoop_fuel hnc
+    unfold structLoop at hnc ⊢
+    obtain ⟨c, w, rfl, hc, hw⟩ := fieldName_split hn
+    obtain ⟨s1, h2, hr1, _⟩ := advance_fwd (s := s.adv [44] (renderGap g1 (c :: w ++ renderGap g4 (renderNames r tail))))
+      (g := g1) (tail := c :: w ++ renderGap g4 (renderNames r tail)) rfl hg1
+      (tailOk_append (notLay_of_lower hc)) hnc.of_bind
+    rw [bind_ok_eq h2] at hnc ⊢
+    obtain ⟨d, x, hx, hd⟩ := renderNames_head r tail
+    have hstop : Stop (renderGap g4 (renderNames r tail)) :=
+      stop_renderGap g4 (by rw [hx]; rcases hd with rfl | rfl <;> exact stop_cons _ (by decide))
+    have h3 := readFieldName_fwd hr1 hc hw hstop hnc.of_bind
+    rw [bind_ok_eq h3] at hnc ⊢
+    simp only at hnc ⊢
+    rw [if_neg (by simp)] at hnc ⊢
+    obtain ⟨s3, h4, hr3, _⟩ := advance_fwd (s := s1.adv (c :: w) (renderGap g4 (renderNames r tail))) (g := g4)
+      (tail := renderNames r tail) rfl hg4
+      (by rw [hx]; rcases hd with rfl | rfl <;> exact tailOk_cons _ (by decide)) hnc.of_bind
+    rw [bind_ok_eq h4] at hnc ⊢
+    rw [hx] at hr3
+    rw [next_cons hr3] at hnc ⊢
+    simp only at hnc ⊢
+    rw [if_neg (by rcases hd with rfl | rfl <;> decide)] at hnc ⊢
+    rw [if_neg (by simp)] at hnc ⊢
+    rw [← hx] at hr3
+    obtain ⟨s', h5, hr5, hd5⟩ := ih f1 s3 tail (.bare (c :: w) acc) hr hr3 hnc
+    exact ⟨s', by rw [h5]; rfl, hr5, hd5⟩
+
+/-! ### one step of the type readers, by the byte under the cursor -/
+
+theorem readType_q {f : Nat} {s : St} {r : Bytes} (h : s.rest = 63 :: r) :
+    readType (f + 1) s = (do
+      let (e, s2) ← readType f (s.adv [63] r)
+      match e with
+      | none => .ok (none, s2)
+      | some e => if e.isMaybe then .ok (none, s2) else .ok (some (.maybe e), s2)) := by
+  conv => lhs; unfold readType
+  rw [next_cons h]
+  rfl
+
+theorem readType_br {f : Nat} {s : St} {r : Bytes} (h : s.rest = 91 :: r) :
+    readType (f + 1) s = (do
+      let (kw, s2) ← readKeyword (s.adv [91] r)
+      if !(kw = kwString || kw = []) then .ok (none, s2) else
+      let (c3, s3) := next s2
+      if c3 ≠ some 93 then .ok (none, s3) else
+      let (e, s4) ← readType f s3
+      match e with
+      | none => .ok (none, s4)
+      | some e => .ok (some (if kw = [] then .array e else .map e), s4)) := by
+  conv => lhs; unfold readType
+  rw [next_cons h]
+  rfl
+
+theorem readType_default {f : Nat} {s : St} {c : UInt8} {r : Bytes} (h : s.rest = c :: r) (h63 : c ≠ 63)
+    (h91 : c ≠ 91) :
+    readType (f + 1) s = (do
+      let (kw, s1) ← readKeyword s
+      if kw ≠ [] then
+        if kw = kwBool then .ok (some .bool, s1)
+        else if kw = kwInt then .ok (some .int, s1)
+        else if kw = kwFloat then .ok (some .float, s1)
+        else if kw = kwString then .ok (some .string, s1)
+        else if kw = kwObject then .ok (some .object, s1)
+        else .ok (none, s1)
+      else
+        let (name, s2) ← readTypeName s1
+        if name ≠ [] then .ok (some (.named name), s2)
+        else readStructType f s2) := by
+  conv => lhs; unfold readType
+  rw [next_cons h]
+  simp only [Option.some.injEq, h63, h91, ↓reduceIte]
+
+theorem readStructType_open {f : Nat} {s : St} {r : Bytes} (h : s.rest = 40 :: r) :
+    readStructType (f + 1) s = (do
+      let s2 ← advance (s.adv [40] r)
+      let (c3, s3) := next s2
+      if c3 = some 41 then .ok (some (.struct .nil), s3)
+      else structLoop f s2 .struct .nil) := by
+  conv => lhs; unfold readStructType
+  rw [next_cons h]
+  rfl
+
+/-- a type that starts with `(`: the keyword and name readers find nothing and `readStructType` takes over -/
+theorem readType_paren {f : Nat} {s : St} {r : Bytes} (h : s.rest = 40 :: r) (hnc : NoCrash (readType (f + 1) s)) :
+    readType (f + 1) s = readStructType f s := by
+  rw [readType_default h (by decide) (by decide)] at hnc ⊢
+  have h1 := readKeyword_none (s := s) (by rw [h]; exact (by decide : isLower 40 = false)) hnc.of_bind
+  rw [bind_ok_eq h1] at hnc ⊢
+  simp only [ne_eq, not_true_eq_false, ↓reduceIte] at hnc ⊢
+  have h2 := readTypeName_none (s := s) (by rw [h]; exact (by decide : isUpper 40 = false))
+  rw [bind_ok_eq h2]
+  simp
+
+/-! ### types -/
+
+def LFields.g1 : LFields → Gap
+  | .last g1 _ _ _ _ _ => g1
+  | .cons g1 _ _ _ _ _ _ => g1
+
+/-- a field list without its first gap -/
+def LFields.body : LFields → Bytes → Bytes
+  | .last _ n g2 g3 t g4, tl => n ++ renderGap g2 (58 :: renderGap g3 (t.render (renderGap g4 (41 :: tl))))
+  | .cons _ n g2 g3 t g4 r, tl => n ++ renderGap g2 (58 :: renderGap g3 (t.render (renderGap g4 (44 :: r.render tl))))
+
+theorem LFields.render_eq (fs : LFields) (tl : Bytes) : fs.render tl = renderGap fs.g1 (fs.body tl) := by
+  cases fs <;> simp [LFields.render, LFields.g1, LFields.body]
+
+theorem LFields.g1_wf {fs : LFields} (h : fs.fits = true) : fs.g1.wf = true := by
+  cases fs <;> simp_all [LFields.fits, LFields.g1]
+
+theorem LFields.body_head {fs : LFields} (h : fs.fits = true) (tl : Bytes) :
+    ∃ c x, fs.body tl = c :: x ∧ isLower c = true := by
+  cases fs with
+  | last g1 n g2 g3 t g4 =>
+    simp only [LFields.fits, Bool.and_eq_true] at h
+    obtain ⟨c, w, rfl, hc, _⟩ := fieldName_split h.1.1.1.1.2
+    exact ⟨c, _, rfl, hc⟩
+  | cons g1 n g2 g3 t g4 r =>
+    simp only [LFields.fits, Bool.and_eq_true] at h
+    obtain ⟨c, w, rfl, hc, _⟩ := fieldName_split h.1.1.1.1.1.2
+    exact ⟨c, _, rfl, hc⟩
+
+/-- the rendering of a type starts with a token byte -/
+theorem LTy.render_head {t : LTy} (h : t.fits = true) (tl : Bytes) :
+    ∃ c x, t.render tl = c :: x ∧ isLay c = false := by
+  cases t with
+  | named n =>
+    obtain ⟨c, w, rfl, hc, _⟩ := typeName_split (by simpa [LTy.fits] using h)
+    exact ⟨c, _, rfl, notLay_of_upper hc⟩
+  | bool => exact ⟨98, _, rfl, by decide⟩
+  | int => exact ⟨105, _, rfl, by decide⟩
+  | float => exact ⟨102, _, rfl, by decide⟩
+  | string => exact ⟨115, _, rfl, by decide⟩
+  | object => exact ⟨111, _, rfl, by decide⟩
+  | maybe t => exact ⟨63, _, rfl, by decide⟩
+  | array t => exact ⟨91, _, rfl, by decide⟩
+  | map t => exact ⟨91, _, rfl, by decide⟩
+  | unit g => exact ⟨40, _, rfl, by decide⟩
+  | struct fs => exact ⟨40, _, rfl, by decide⟩
+  | enum g1 n g4 r => exact ⟨40, _, rfl, by decide⟩
+
+theorem LTy.erase_isMaybe (t : LTy) : t.erase.isMaybe = t.isMaybe := by
+  cases t <;> rfl
+
+/-- reading a builtin type keyword -/
+theorem readType_builtin {f : Nat} {s : St} {k tail : Bytes} {ty : Ty}
+    (hsel : (k = kwBool ∧ ty = .bool) ∨ (k = kwInt ∧ ty = .int) ∨ (k = kwFloat ∧ ty = .float) ∨
+      (k = kwString ∧ ty = .string) ∨ (k = kwObject ∧ ty = .object))
+    (h : s.rest = k ++ tail) (hstop : Stop tail) (hnc : NoCrash (readType (f + 1) s)) :
+    ∃ s', readType (f + 1) s = .ok (some ty, s') ∧ s'.rest = tail ∧ Dirty s' := by
+  have hk : (∀ c ∈ k, isLower c = true) ∧ ∃ c w, k = c :: w ∧ c ≠ 63 ∧ c ≠ 91 := by
+    rcases hsel with ⟨rfl, _⟩ | ⟨rfl, _⟩ | ⟨rfl, _⟩ | ⟨rfl, _⟩ | ⟨rfl, _⟩ <;>
+      exact ⟨by decide, _, _, rfl, by decide, by decide⟩
+  obtain ⟨hlow, c, w, rfl, h63, h91⟩ := hk
+  rw [readType_default (r := w ++ tail) (by simpa using h) h63 h91] at hnc ⊢
+  have h1 := readKeyword_lit hlow h hstop hnc.of_bind
+  rw [bind_ok_eq h1] at hnc ⊢
+  refine ⟨s.adv (c :: w) tail, ?_, rfl, dirty_adv (isBlank_cons_false (notLay_of_lower (hlow c List.mem_cons_self)))⟩
+  rcases hsel with ⟨hk, rfl⟩ | ⟨hk, rfl⟩ | ⟨hk, rfl⟩ | ⟨hk, rfl⟩ | ⟨hk, rfl⟩ <;> rw [hk] <;> rfl
+
+theorem upper_not_lower {c : UInt8} (hc : isUpper c = true) : isLower c = false := by
+  cases hl : isLower c with
+  | false => rfl
+  | true =>
+    exfalso
+    simp only [isLower, isUpper, Bool.and_eq_true, decide_eq_true_eq] at hl hc
+    have h1 := UInt8.le_iff_toNat_le.mp hl.1
+    have h2 := UInt8.le_iff_toNat_le.mp hc.2
+    simp at h1 h2; omega
+
+theorem lower_ne_41 {c : UInt8} (hc : isLower c = true) : c ≠ 41 := by
+  intro he; subst he; revert hc; decide
+
+theorem Fields.revAppend_typed_nil (acc : Fields) (n : Bytes) (t : Ty) :
+    mkFieldList .struct (.typed n t acc) = .struct (Fields.revAppend acc (.typed n t .nil)) := rfl
+
+mutual
+theorem readType_fwd : ∀ (t : LTy) (f : Nat) (s : St) (tail : Bytes), t.fits = true → s.rest = t.render tail →
+    Stop tail → NoCrash (readType f s) →
+    ∃ s', readType f s = .ok (some t.erase, s') ∧ s'.rest = tail ∧ Dirty s'
+  | .bool, f, s, tail, _, h, hstop, hnc => by
+    obtain ⟨f0, rfl⟩ := readType_fuel hnc
+    exact readType_builtin (k := tBool) (Or.inl ⟨rfl, rfl⟩) h hstop hnc
+  | .int, f, s, tail, _, h, hstop, hnc => by
+    obtain ⟨f0, rfl⟩ := readType_fuel hnc
+    exact readType_builtin (k := tInt) (Or.inr (Or.inl ⟨rfl, rfl⟩)) h hstop hnc
+  | .float, f, s, tail, _, h, hstop, hnc => by
+    obtain ⟨f0, rfl⟩ := readType_fuel hnc
+    exact readType_builtin (k := tFloat) (Or.inr (Or.inr (Or.inl ⟨rfl, rfl⟩))) h hstop hnc
+  | .string, f, s, tail, _, h, hstop, hnc => by
+    obtain ⟨f0, rfl⟩ := readType_fuel hnc
+    exact readType_builtin (k := tString) (Or.inr (Or.inr (Or.inr (Or.inl ⟨rfl, rfl⟩)))) h hstop hnc
+  | .object, f, s, tail, _, h, hstop, hnc => by
+    obtain ⟨f0, rfl⟩ := readType_fuel hnc
+    exact readType_builtin (k := tObject) (Or.inr (Or.inr (Or.inr (Or.inr ⟨rfl, rfl⟩)))) h hstop hnc
+  | .named n, f, s, tail, hfit, h, hstop, hnc => by
+    obtain ⟨f0, rfl⟩ := readType_fuel hnc
+    obtain ⟨c, w, rfl, hc, hw⟩ := typeName_split (by simpa [LTy.fits] using hfit)
+    simp only [LTy.render] at h
+    have h63 : c ≠ 63 := by intro he; subst he; revert hc; decide
+    have h91 : c ≠ 91 := by intro he; subst he; revert hc; decide
+    rw [readType_default (r := w ++ tail) (by simpa using h) h63 h91] at hnc ⊢
+    have h1 := readKeyword_none (s := s) (by rw [h]; exact upper_not_lower hc) hnc.of_bind
+    rw [bind_ok_eq h1] at hnc ⊢
+    simp only [ne_eq, not_true_eq_false, ↓reduceIte] at hnc ⊢
+    have h2 := readTypeName_fwd h hc hw hstop.alnum hnc.of_bind
+    rw [bind_ok_eq h2]
+    simp only [reduceCtorEq, not_false_eq_true, ↓reduceIte]
+    exact ⟨_, rfl, rfl, dirty_adv (isBlank_cons_false (notLay_of_upper hc))⟩
+  | .maybe t, f, s, tail, hfit, h, hstop, hnc => by
+    obtain ⟨f0, rfl⟩ := readType_fuel hnc
+    simp only [LTy.fits, Bool.and_eq_true, Bool.not_eq_true'] at hfit
+    simp only [LTy.render] at h
+    rw [readType_q h] at hnc ⊢
+    obtain ⟨s', h1, hr1, hd1⟩ := readType_fwd t f0 (s.adv [63] (t.render tail)) tail hfit.2 rfl hstop hnc.of_bind
+    rw [bind_ok_eq h1]
+    simp only [LTy.erase_isMaybe, hfit.1, Bool.false_eq_true, ↓reduceIte]
+    exact ⟨s', rfl, hr1, hd1⟩
+  | .array t, f, s, tail, hfit, h, hstop, hnc => by
+    obtain ⟨f0, rfl⟩ := readType_fuel hnc
+    simp only [LTy.fits] at hfit
+    have h' : s.rest = 91 :: 93 :: t.render tail := by simpa [LTy.render, tArray] using h
+    rw [readType_br h'] at hnc ⊢
+    have h1 := readKeyword_none (s := s.adv [91] (93 :: t.render tail))
+      (by exact (by decide : isLower 93 = false)) hnc.of_bind
+    rw [bind_ok_eq h1] at hnc ⊢
+    simp only [Bool.or_true, decide_true, Bool.not_true, Bool.false_eq_true, ↓reduceIte] at hnc ⊢
+    rw [next_cons (s := s.adv [91] (93 :: t.render tail)) (c := 93) (r := t.render tail) rfl] at hnc ⊢
+    simp only [ne_eq, not_true_eq_false, ↓reduceIte] at hnc ⊢
+    obtain ⟨s', h2, hr2, hd2⟩ := readType_fwd t f0 _ tail hfit rfl hstop hnc.of_bind
+    rw [bind_ok_eq h2]
+    exact ⟨s', rfl, hr2, hd2⟩
+  | .map t, f, s, tail, hfit, h, hstop, hnc => by
+    obtain ⟨f0, rfl⟩ := readType_fuel hnc
+    simp only [LTy.fits] at hfit
+    have h' : s.rest = 91 :: (kwString ++ 93 :: t.render tail) := by simpa [LTy.render, tMap, kwString] using h
+    rw [readType_br h'] at hnc ⊢
+    have h1 := readKeyword_fwd (s := s.adv [91] (kwString ++ 93 :: t.render tail)) (w := kwString)
+      (r := 93 :: t.render tail) rfl (by decide) (by exact (by decide : isLower 93 = false)) hnc.of_bind
+    rw [bind_ok_eq h1] at hnc ⊢
+    simp only [decide_true, Bool.true_or, Bool.not_true, Bool.false_eq_true, ↓reduceIte] at hnc ⊢
+    rw [next_cons (s := (s.adv [91] (kwString ++ 93 :: t.render tail)).adv kwString (93 :: t.render tail))
+      (c := 93) (r := t.render tail) rfl] at hnc ⊢
+    simp only [ne_eq, not_true_eq_false, ↓reduceIte] at hnc ⊢
+    obtain ⟨s', h2, hr2, hd2⟩ := readType_fwd t f0 _ tail hfit rfl hstop hnc.of_bind
+    rw [bind_ok_eq h2]
+    refine ⟨s', ?_, hr2, hd2⟩
+    simp [kwString, LTy.erase]
+  | .unit g, f, s, tail, hfit, h, hstop, hnc => by
+    obtain ⟨f0, rfl⟩ := readType_fuel hnc
+    simp only [LTy.fits] at hfit
+    simp only [LTy.render] at h
+    have hp := readType_paren h hnc
+    rw [hp] at hnc ⊢
+    obtain ⟨f1, rfl⟩ := readStructType_fuel hnc
+    rw [readStructType_open h] at hnc ⊢
+    obtain ⟨s2, h1, hr1, _⟩ := advance_fwd (s := s.adv [40] (renderGap g (41 :: tail))) (g := g)
+      (tail := 41 :: tail) rfl hfit (tailOk_cons _ (by decide)) hnc.of_bind
+    rw [bind_ok_eq h1]
+    rw [next_cons hr1]
+    simp only [↓reduceIte]
+    exact ⟨_, rfl, rfl, dirty_adv (by decide)⟩
+  | .struct fs, f, s, tail, hfit, h, hstop, hnc => by
+    obtain ⟨f0, rfl⟩ := readType_fuel hnc
+    simp only [LTy.fits] at hfit
+    simp only [LTy.render] at h
+    have hp := readType_paren h hnc
+    rw [hp] at hnc ⊢
+    obtain ⟨f1, rfl⟩ := readStructType_fuel hnc
+    rw [readStructType_open h] at hnc ⊢
+    obtain ⟨c, x, hb, hc⟩ := LFields.body_head hfit tail
+    obtain ⟨s2, h1, hr1, _⟩ := advance_fwd (s := s.adv [40] (fs.render tail)) (g := fs.g1)
+      (tail := fs.body tail) (by rw [LFields.render_eq]; rfl) (LFields.g1_wf hfit)
+      (by rw [hb]; exact tailOk_cons _ (notLay_of_lower hc)) hnc.of_bind
+    rw [bind_ok_eq h1] at hnc ⊢
+    rw [hb] at hr1
+    rw [next_cons hr1] at hnc ⊢
+    simp only [Option.some.injEq, lower_ne_41 hc, ↓reduceIte] at hnc ⊢
+    rw [← hb] at hr1
+    obtain ⟨s', h2, hr2, hd2⟩ := fields_fwd fs f1 s2 [] tail .nil hfit rfl hr1 hnc
+    exact ⟨s', by rw [h2]; rfl, hr2, hd2⟩
+  | .enum g1 n g4 r, f, s, tail, hfit, h, hstop, hnc => by
+    obtain ⟨f0, rfl⟩ := readType_fuel hnc
+    simp only [LTy.fits, Bool.and_eq_true] at hfit
+    obtain ⟨⟨⟨hg1, hn⟩, hg4⟩, hr⟩ := hfit
+    simp only [LTy.render] at h
+    have hp := readType_paren h hnc
+    rw [hp] at hnc ⊢
+    obtain ⟨f1, rfl⟩ := readStructType_fuel hnc
+    rw [readStructType_open h] at hnc ⊢
+    obtain ⟨c, w, rfl, hc, hw⟩ := fieldName_split hn
+    obtain ⟨s2, h1, hr1, _⟩ := advance_fwd (s := s.adv [40] (renderGap g1 (c :: w ++ renderGap g4 (renderNames r tail))))
+      (g := g1) (tail := c :: w ++ renderGap g4 (renderNames r tail)) rfl hg1
+      (tailOk_append (notLay_of_lower hc)) hnc.of_bind
+    rw [bind_ok_eq h1] at hnc ⊢
+    rw [next_cons (r := w ++ renderGap g4 (renderNames r tail)) (by simpa using hr1)] at hnc ⊢
+    simp only [Option.some.injEq, lower_ne_41 hc, ↓reduceIte] at hnc ⊢
+    -- the first name
+    obtain ⟨f2, rfl⟩ := structLoop_fuel hnc
+    unfold structLoop at hnc ⊢
+    have h2 := advance_none (s := s2) (by rw [hr1]; exact tailOk_append (notLay_of_lower hc)) hnc.of_bind
+    rw [bind_ok_eq h2] at hnc ⊢
+    obtain ⟨d, x, hx, hd⟩ := renderNames_head r tail
+    have hstop4 : Stop (renderGap g4 (renderNames r tail)) :=
+      stop_renderGap g4 (by rw [hx]; rcases hd with rfl | rfl <;> exact stop_cons _ (by decide))
+    have h3 := readFieldName_fwd hr1 hc hw hstop4 hnc.of_bind
+    rw [bind_ok_eq h3] at hnc ⊢
+    simp only at hnc ⊢
+    rw [if_neg (by simp)] at hnc ⊢
+    obtain ⟨s3, h4, hr3, _⟩ := advance_fwd (s := s2.adv (c :: w) (renderGap g4 (renderNames r tail))) (g := g4)
+      (tail := renderNames r tail) rfl hg4
+      (by rw [hx]; rcases hd with rfl | rfl <;> exact tailOk_cons _ (by decide)) hnc.of_bind
+    rw [bind_ok_eq h4] at hnc ⊢
+    rw [hx] at hr3
+    rw [next_cons hr3] at hnc ⊢
+    simp only at hnc ⊢
+    rw [if_neg (by rcases hd with rfl | rfl <;> decide)] at hnc ⊢
+    rw [if_neg (by simp [Fields.isNil])] at hnc ⊢
+    rw [← hx] at hr3
+    obtain ⟨s', h5, hr5, hd5⟩ := names_fwd r f2 s3 tail (.bare (c :: w) .nil) hr hr3 hnc
+    exact ⟨s', by rw [h5]; rfl, hr5, hd5⟩
+theorem fields_fwd : ∀ (fs : LFields) (f : Nat) (s : St) (g : Gap) (tail : Bytes) (acc : Fields), fs.fits = true →
+    g.wf = true → s.rest = renderGap g (fs.body tail) → NoCrash (structLoop f s .struct acc) →
+    ∃ s', structLoop f s .struct acc = .ok (some (.struct (Fields.revAppend acc fs.erase)), s') ∧
+      s'.rest = tail ∧ Dirty s'
+  | .last g1 n g2 g3 t g4, f, s, g, tail, acc, hfit, hg, h, hnc => by
+    simp only [LFields.fits, Bool.and_eq_true] at hfit
+    obtain ⟨⟨⟨⟨⟨_, hn⟩, hg2⟩, hg3⟩, ht⟩, hg4⟩ := hfit
+    simp only [LFields.body] at h
+    obtain ⟨f0, rfl⟩ := structLoop_fuel hnc
+    unfold structLoop at hnc ⊢
+    obtain ⟨c, w, rfl, hc, hw⟩ := fieldName_split hn
+    obtain ⟨s1, h1, hr1, _⟩ := advance_fwd h hg (tailOk_append (notLay_of_lower hc)) hnc.of_bind
+    rw [bind_ok_eq h1] at hnc ⊢
+    have h2 := readFieldName_fwd hr1 hc hw (stop_renderGap g2 (stop_cons _ (by decide))) hnc.of_bind
+    rw [bind_ok_eq h2] at hnc ⊢
+    simp only at hnc ⊢
+    rw [if_neg (by simp)] at hnc ⊢
+    obtain ⟨s3, h3, hr3, _⟩ := advance_fwd (s := s1.adv (c :: w) (renderGap g2 (58 :: renderGap g3 (t.render (renderGap g4 (41 :: tail))))))
+      (g := g2) (tail := 58 :: renderGap g3 (t.render (renderGap g4 (41 :: tail)))) rfl hg2
+      (tailOk_cons _ (by decide)) hnc.of_bind
+    rw [bind_ok_eq h3] at hnc ⊢
+    rw [next_cons hr3] at hnc ⊢
+    simp only [↓reduceIte] at hnc ⊢
+    rw [if_neg (by decide)] at hnc ⊢
+    obtain ⟨ct, xt, hxt, hct⟩ := LTy.render_head ht (renderGap g4 (41 :: tail))
+    obtain ⟨s5, h5, hr5, _⟩ := advance_fwd (s := s3.adv [58] (renderGap g3 (t.render (renderGap g4 (41 :: tail)))))
+      (g := g3) (tail := t.render (renderGap g4 (41 :: tail))) rfl hg3
+      (by rw [hxt]; exact tailOk_cons _ hct) hnc.of_bind
+    rw [bind_ok_eq h5] at hnc ⊢
+    obtain ⟨s6, h6, hr6, _⟩ := readType_fwd t f0 s5 (renderGap g4 (41 :: tail)) ht hr5
+      (stop_renderGap g4 (stop_cons _ (by decide))) hnc.of_bind
+    rw [bind_ok_eq h6] at hnc ⊢
+    simp only at hnc ⊢
+    -- structTail
+    obtain ⟨f1, rfl⟩ := structTail_fuel hnc
+    unfold structTail at hnc ⊢
+    obtain ⟨s7, h7, hr7, _⟩ := advance_fwd hr6 hg4 (tailOk_cons _ (by decide)) hnc.of_bind
+    rw [bind_ok_eq h7] at hnc ⊢
+    rw [next_cons hr7]
+    simp only [Option.some.injEq, ↓reduceIte]
+    rw [if_neg (by decide)]
+    exact ⟨_, rfl, rfl, dirty_adv (by decide)⟩
+  | .cons g1 n g2 g3 t g4 r, f, s, g, tail, acc, hfit, hg, h, hnc => by
+    simp only [LFields.fits, Bool.and_eq_true] at hfit
+    obtain ⟨⟨⟨⟨⟨⟨_, hn⟩, hg2⟩, hg3⟩, ht⟩, hg4⟩, hr⟩ := hfit
+    simp only [LFields.body] at h
+    obtain ⟨f0, rfl⟩ := structLoop_fuel hnc
+    unfold structLoop at hnc ⊢
+    obtain ⟨c, w, rfl, hc, hw⟩ := fieldName_split hn
+    obtain ⟨s1, h1, hr1, _⟩ := advance_fwd h hg (tailOk_append (notLay_of_lower hc)) hnc.of_bind
+    rw [bind_ok_eq h1] at hnc ⊢
+    have h2 := readFieldName_fwd hr1 hc hw (stop_renderGap g2 (stop_cons _ (by decide))) hnc.of_bind
+    rw [bind_ok_eq h2] at hnc ⊢
+    simp only at hnc ⊢
+    rw [if_neg (by simp)] at hnc ⊢
+    obtain ⟨s3, h3, hr3, _⟩ := advance_fwd (s := s1.adv (c :: w) (renderGap g2 (58 :: renderGap g3 (t.render (renderGap g4 (44 :: r.render tail))))))
+      (g := g2) (tail := 58 :: renderGap g3 (t.render (renderGap g4 (44 :: r.render tail)))) rfl hg2
+      (tailOk_cons _ (by decide)) hnc.of_bind
+    rw [bind_ok_eq h3] at hnc ⊢
+    rw [next_cons hr3] at hnc ⊢
+    simp only [↓reduceIte] at hnc ⊢
+    rw [if_neg (by decide)] at hnc ⊢
+    obtain ⟨ct, xt, hxt, hct⟩ := LTy.render_head ht (renderGap g4 (44 :: r.render tail))
+    obtain ⟨s5, h5, hr5, _⟩ := advance_fwd (s := s3.adv [58] (renderGap g3 (t.render (renderGap g4 (44 :: r.render tail)))))
+      (g := g3) (tail := t.render (renderGap g4 (44 :: r.render tail))) rfl hg3
+      (by rw [hxt]; exact tailOk_cons _ hct) hnc.of_bind
+    rw [bind_ok_eq h5] at hnc ⊢
+    obtain ⟨s6, h6, hr6, _⟩ := readType_fwd t f0 s5 (renderGap g4 (44 :: r.render tail)) ht hr5
+      (stop_renderGap g4 (stop_cons _ (by decide))) hnc.of_bind
+    rw [bind_ok_eq h6] at hnc ⊢
+    simp only at hnc ⊢
+    -- structTail
+    obtain ⟨f1, rfl⟩ := structTail_fuel hnc
+    unfold structTail at hnc ⊢
+    obtain ⟨s7, h7, hr7, _⟩ := advance_fwd hr6 hg4 (tailOk_cons _ (by decide)) hnc.of_bind
+    rw [bind_ok_eq h7] at hnc ⊢
+    rw [next_cons hr7] at hnc ⊢
+    simp only [↓reduceIte] at hnc ⊢
+    obtain ⟨s', h8, hr8, hd8⟩ := fields_fwd r f1 (s7.adv [44] (r.render tail)) r.g1 tail (.typed (c :: w) t.erase acc) hr
+      (LFields.g1_wf hr) (by rw [LFields.render_eq]; rfl) hnc
+    exact ⟨s', by rw [h8]; rfl, hr8, hd8⟩
+end
+
+/-! ### members -/
+
+theorem LTy.render_stop {t : LTy} (hf : t.fits = true) (h : t.startsWord = false) (tl : Bytes) : Stop (t.render tl) := by
+  cases t <;> simp_all [LTy.startsWord, LTy.render, StopAt, tArray, tMap] <;> decide
+
+/-- the gap between a name and the type behind it separates them -/
+theorem stop_sep {g : Gap} {t : LTy} (hf : t.fits = true) (h : sepOk g t = true) (tl : Bytes) :
+    Stop (renderGap g (t.render tl)) := by
+  apply stop_renderGap_of
+  simp only [sepOk, Bool.or_eq_true, Bool.not_eq_true'] at h
+  rcases h with h | h
+  · exact Or.inr (LTy.render_stop hf h tl)
+  · exact Or.inl h
+
+theorem tailOk_ty {t : LTy} (hf : t.fits = true) (tl : Bytes) : TailOk (t.render tl) := by
+  obtain ⟨c, x, hx, hc⟩ := LTy.render_head hf tl
+  rw [hx]; exact hc
+
+theorem readAlias_fwd {s : St} {g1 g4 : Gap} {n tail : Bytes} {t : LTy}
+    (hfit : (LMember.alias g1 n g4 t).fits = true)
+    (h : s.rest = renderGap g1 (n ++ renderGap g4 (t.render tail))) (hstop : Stop tail)
+    (hnc : NoCrash (readAlias s)) :
+    ∃ s', readAlias s = .ok (.alias n s.lastComment t.erase, s') ∧ s'.rest = tail ∧ Dirty s' := by
+  simp only [LMember.fits, Bool.and_eq_true, Bool.not_eq_true'] at hfit
+  obtain ⟨⟨⟨⟨⟨hg1, _⟩, hn⟩, hg4⟩, hsep⟩, ht⟩ := hfit
+  unfold readAlias at hnc ⊢
+  obtain ⟨c, w, rfl, hc, hw⟩ := typeName_split hn
+  obtain ⟨s1, h1, hr1, _⟩ := advance_fwd h hg1 (tailOk_append (notLay_of_upper hc)) hnc.of_bind
+  rw [bind_ok_eq h1] at hnc ⊢
+  have h2 := readTypeName_fwd hr1 hc hw (stop_sep ht hsep tail).alnum hnc.of_bind
+  rw [bind_ok_eq h2] at hnc ⊢
+  simp only at hnc ⊢
+  rw [if_neg (by simp)] at hnc ⊢
+  obtain ⟨s3, h3, hr3, _⟩ := advance_fwd (s := s1.adv (c :: w) (renderGap g4 (t.render tail))) (g := g4)
+    (tail := t.render tail) rfl hg4 (tailOk_ty ht tail) hnc.of_bind
+  rw [bind_ok_eq h3] at hnc ⊢
+  obtain ⟨s4, h4, hr4, hd4⟩ := readType_fwd t _ s3 tail ht hr3 hstop hnc.of_bind
+  rw [bind_ok_eq h4]
+  exact ⟨s4, rfl, hr4, hd4⟩
+
+theorem readMethod_fwd {s : St} {g1 g4 g5 g5' : Gap} {n tail : Bytes} {i o : LTy}
+    (hfit : (LMember.method g1 n g4 i g5 g5' o).fits = true)
+    (h : s.rest = renderGap g1 (n ++ renderGap g4 (i.render (renderGap g5 (tArrow ++ renderGap g5' (o.render tail))))))
+    (hstop : Stop tail) (hnc : NoCrash (readMethod s)) :
+    ∃ s', readMethod s = .ok (.method n s.lastComment i.erase o.erase, s') ∧ s'.rest = tail ∧ Dirty s' := by
+  simp only [LMember.fits, Bool.and_eq_true, Bool.not_eq_true'] at hfit
+  obtain ⟨⟨⟨⟨⟨⟨⟨⟨hg1, _⟩, hn⟩, hg4⟩, hsep⟩, hi⟩, hg5⟩, hg5'⟩, ho⟩ := hfit
+  unfold readMethod at hnc ⊢
+  obtain ⟨c, w, rfl, hc, hw⟩ := typeName_split hn
+  obtain ⟨s1, h1, hr1, _⟩ := advance_fwd h hg1 (tailOk_append (notLay_of_upper hc)) hnc.of_bind
+  rw [bind_ok_eq h1] at hnc ⊢
+  have h2 := readTypeName_fwd hr1 hc hw (stop_sep hi hsep _).alnum hnc.of_bind
+  rw [bind_ok_eq h2] at hnc ⊢
+  simp only at hnc ⊢
+  rw [if_neg (by simp)] at hnc ⊢
+  obtain ⟨s3, h3, hr3, _⟩ := advance_fwd
+    (s := s1.adv (c :: w) (renderGap g4 (i.render (renderGap g5 (tArrow ++ renderGap g5' (o.render tail))))))
+    (g := g4) (tail := i.render (renderGap g5 (tArrow ++ renderGap g5' (o.render tail)))) rfl hg4
+    (tailOk_ty hi _) hnc.of_bind
+  rw [bind_ok_eq h3] at hnc ⊢
+  obtain ⟨s4, h4, hr4, _⟩ := readType_fwd i _ s3 _ hi hr3
+    (stop_renderGap g5 (stop_cons _ (by decide))) hnc.of_bind
+  rw [bind_ok_eq h4] at hnc ⊢
+  simp only at hnc ⊢
+  obtain ⟨s5, h5, hr5, _⟩ := advance_fwd (tail := 45 :: 62 :: renderGap g5' (o.render tail)) hr4 hg5
+    (tailOk_cons _ (by decide)) hnc.of_bind
+  rw [bind_ok_eq h5] at hnc ⊢
+  rw [next_cons hr5] at hnc ⊢
+  simp only at hnc ⊢
+  rw [next_cons (s := s5.adv [45] (62 :: renderGap g5' (o.render tail))) (c := 62) rfl] at hnc ⊢
+  simp only at hnc ⊢
+  rw [if_neg (by simp)] at hnc ⊢
+  obtain ⟨s8, h8, hr8, _⟩ := advance_fwd
+    (s := (s5.adv [45] (62 :: renderGap g5' (o.render tail))).adv [62] (renderGap g5' (o.render tail)))
+    (g := g5') (tail := o.render tail) rfl hg5' (tailOk_ty ho tail) hnc.of_bind
+  rw [bind_ok_eq h8] at hnc ⊢
+  obtain ⟨s9, h9, hr9, hd9⟩ := readType_fwd o _ s8 tail ho hr8 hstop hnc.of_bind
+  rw [bind_ok_eq h9]
+  exact ⟨s9, rfl, hr9, hd9⟩
+
+/-- the rendering of a gap of spaces and tabs -/
+theorem onLine_render : ∀ (g : Gap) (x : Bytes), g.onLine = true →
+    ∃ w, renderGap g x = w ++ x ∧ ∀ c ∈ w, isSpTab c = true
+  | [], x, _ => ⟨[], rfl, fun _ h => absurd h List.not_mem_nil⟩
+  | a :: g, x, h => by
+    simp only [Gap.onLine, List.all_cons, Bool.and_eq_true] at h
+    obtain ⟨w, hw, hall⟩ := onLine_render g x h.2
+    cases a <;> simp [Atom.isSpTab] at h
+    · refine ⟨32 :: w, by simp [renderGap, Atom.render, hw], ?_⟩
+      intro c hc; rcases List.mem_cons.mp hc with rfl | hc
+      · decide
+      · exact hall c hc
+    · refine ⟨9 :: w, by simp [renderGap, Atom.render, hw], ?_⟩
+      intro c hc; rcases List.mem_cons.mp hc with rfl | hc
+      · decide
+      · exact hall c hc
+
+theorem lay_stopAt_spTab {x : Bytes} (h : TailOk x) : StopAt isSpTab x := by
+  cases x with
+  | nil => trivial
+  | cons c r =>
+    simp only [TailOk, isLay, Bool.or_eq_false_iff, decide_eq_false_iff_not] at h
+    simp [StopAt, isSpTab, h.1.1.1.1, h.1.1.1.2]
+
+theorem dirty_adv_blank {s : St} {w r : Bytes} (h : Dirty s) : Dirty (s.adv w r) := dirty_adv_of_dirty h
+
+theorem readError_fwd {s : St} {g1 g6 : Gap} {n tail : Bytes} {t : LTy}
+    (hfit : (LMember.error g1 n g6 t).fits = true)
+    (h : s.rest = renderGap g1 (n ++ renderGap g6 (t.render tail))) (hstop : Stop tail)
+    (hnc : NoCrash (readError s)) :
+    ∃ s', readError s = .ok (.error n s.lastComment (some t.erase), s') ∧ s'.rest = tail ∧ Dirty s' := by
+  simp only [LMember.fits, Bool.and_eq_true, Bool.not_eq_true'] at hfit
+  obtain ⟨⟨⟨⟨⟨hg1, _⟩, hn⟩, hg6⟩, hsep⟩, ht⟩ := hfit
+  unfold readError at hnc ⊢
+  obtain ⟨c, w, rfl, hc, hw⟩ := typeName_split hn
+  obtain ⟨s1, h1, hr1, _⟩ := advance_fwd h hg1 (tailOk_append (notLay_of_upper hc)) hnc.of_bind
+  rw [bind_ok_eq h1] at hnc ⊢
+  have h2 := readTypeName_fwd hr1 hc hw (stop_sep ht hsep tail).alnum hnc.of_bind
+  rw [bind_ok_eq h2] at hnc ⊢
+  simp only at hnc ⊢
+  rw [if_neg (by simp)] at hnc ⊢
+  obtain ⟨b, hb, hball⟩ := onLine_render g6 (t.render tail) hg6
+  have h3 : advanceOnLine (s1.adv (c :: w) (renderGap g6 (t.render tail))) =
+      .ok ((s1.adv (c :: w) (renderGap g6 (t.render tail))).adv b (t.render tail)) :=
+    scan_fwd isSpTab b _ _ _ hb hball (lay_stopAt_spTab (tailOk_ty ht tail)) hnc.of_bind
+  rw [bind_ok_eq h3] at hnc ⊢
+  obtain ⟨s4, h4, hr4, hd4⟩ := readType_fwd t _ _ tail ht rfl hstop hnc.of_bind
+  rw [bind_ok_eq h4]
+  exact ⟨s4, rfl, hr4, hd4⟩
+
+/-! ### an error without a type -/
+
+/-- where `readType` finds nothing that could start a type it returns `nil` without moving -/
+theorem readType_nothing {f : Nat} {s : St} (h : s.rest = [] ∨ ∃ c r, s.rest = c :: r ∧ (c = 13 ∨ c = 10 ∨ c = 35))
+    (hnc : NoCrash (readType f s)) : readType f s = .ok (none, s) := by
+  obtain ⟨f0, rfl⟩ := readType_fuel hnc
+  have hlow : StopAt isLower s.rest := by
+    rcases h with h | ⟨c, r, h, hc⟩ <;> rw [h]
+    · trivial
+    · rcases hc with rfl | rfl | rfl <;> (show isLower _ = false; decide)
+  have hup : StopAt isUpper s.rest := by
+    rcases h with h | ⟨c, r, h, hc⟩ <;> rw [h]
+    · trivial
+    · rcases hc with rfl | rfl | rfl <;> (show isUpper _ = false; decide)
+  have hdef : readType (f0 + 1) s = (do
+      let (kw, s1) ← readKeyword s
+      if kw ≠ [] then
+        if kw = kwBool then .ok (some .bool, s1)
+        else if kw = kwInt then .ok (some .int, s1)
+        else if kw = kwFloat then .ok (some .float, s1)
+        else if kw = kwString then .ok (some .string, s1)
+        else if kw = kwObject then .ok (some .object, s1)
+        else .ok (none, s1)
+      else
+        let (name, s2) ← readTypeName s1
+        if name ≠ [] then .ok (some (.named name), s2)
+        else readStructType f0 s2) := by
+    rcases h with h | ⟨c, r, h, hc⟩
+    · conv => lhs; unfold readType
+      have := next_nil h
+      rcases hn : next s with ⟨c, s1⟩
+      rw [hn] at this; simp only at this; subst this
+      rfl
+    · exact readType_default h (by rcases hc with rfl | rfl | rfl <;> decide) (by rcases hc with rfl | rfl | rfl <;> decide)
+  rw [hdef] at hnc ⊢
+  have h1 := readKeyword_none hlow hnc.of_bind
+  rw [bind_ok_eq h1] at hnc ⊢
+  simp only [ne_eq, not_true_eq_false, ↓reduceIte] at hnc ⊢
+  have h2 := readTypeName_none hup
+  rw [bind_ok_eq h2] at hnc ⊢
+  simp only [ne_eq, not_true_eq_false, ↓reduceIte] at hnc ⊢
+  obtain ⟨f1, rfl⟩ := readStructType_fuel hnc
+  unfold readStructType
+  rcases h with h | ⟨c, r, h, hc⟩
+  · have := next_nil h
+    rcases hn : next s with ⟨c, s1⟩
+    rw [hn] at this; simp only at this; subst this
+    rfl
+  · rw [next_cons h]
+    simp only
+    rw [if_pos (by rcases hc with rfl | rfl | rfl <;> simp)]
+
+/-- the spaces and tabs at the start of a gap, and what is left of the gap -/
+theorem gap_split_spTab : ∀ (g : Gap) (x : Bytes),
+    ∃ w, renderGap g x = w ++ renderGap (g.dropWhile Atom.isSpTab) x ∧ ∀ c ∈ w, isSpTab c = true
+  | [], x => ⟨[], rfl, fun _ h => absurd h List.not_mem_nil⟩
+  | a :: g, x => by
+    obtain ⟨w, hw, hall⟩ := gap_split_spTab g x
+    cases a with
+    | sp =>
+      refine ⟨32 :: w, by simp [renderGap, Atom.render, List.dropWhile, Atom.isSpTab, hw], ?_⟩
+      intro c hc; rcases List.mem_cons.mp hc with rfl | hc
+      · decide
+      · exact hall c hc
+    | tab =>
+      refine ⟨9 :: w, by simp [renderGap, Atom.render, List.dropWhile, Atom.isSpTab, hw], ?_⟩
+      intro c hc; rcases List.mem_cons.mp hc with rfl | hc
+      · decide
+      · exact hall c hc
+    | cr => exact ⟨[], by simp [List.dropWhile, Atom.isSpTab], fun _ h => absurd h List.not_mem_nil⟩
+    | nl => exact ⟨[], by simp [List.dropWhile, Atom.isSpTab], fun _ h => absurd h List.not_mem_nil⟩
+    | comment t => exact ⟨[], by simp [List.dropWhile, Atom.isSpTab], fun _ h => absurd h List.not_mem_nil⟩
+
+theorem dropWhile_cons_head : ∀ {g : Gap} {a : Atom} {g' : Gap}, g.dropWhile Atom.isSpTab = a :: g' → a.isSpTab = false
+  | [], _, _, h => by simp at h
+  | b :: g, a, g', h => by
+    simp only [List.dropWhile] at h
+    split at h
+    · exact dropWhile_cons_head h
+    · rename_i hb
+      cases h
+      simpa using hb
+
+/-- what stands behind the spaces and tabs: the end, a `#`, or the line break of the gap -/
+theorem gap_rest_head (g : Gap) (x : Bytes)
+    (h : g.dropWhile Atom.isSpTab ≠ [] ∨ x = [] ∨ ∃ r, x = 35 :: r) :
+    renderGap (g.dropWhile Atom.isSpTab) x = [] ∨
+      ∃ c r, renderGap (g.dropWhile Atom.isSpTab) x = c :: r ∧ (c = 13 ∨ c = 10 ∨ c = 35) := by
+  cases hd : g.dropWhile Atom.isSpTab with
+  | nil =>
+    rw [hd] at h
+    rcases h with h | h | ⟨r, h⟩
+    · exact absurd rfl h
+    · left; simp [renderGap, h]
+    · right; exact ⟨35, r, by simp [renderGap, h], Or.inr (Or.inr rfl)⟩
+  | cons a g' =>
+    have hna : a.isSpTab = false := dropWhile_cons_head hd
+    right
+    cases a with
+    | sp => simp [Atom.isSpTab] at hna
+    | tab => simp [Atom.isSpTab] at hna
+    | cr => exact ⟨13, _, rfl, Or.inl rfl⟩
+    | nl => exact ⟨10, _, rfl, Or.inr (Or.inl rfl)⟩
+    | comment t => exact ⟨35, _, rfl, Or.inr (Or.inr rfl)⟩
+
+theorem stop_of_head {x : Bytes} (h : x = [] ∨ ∃ c r, x = c :: r ∧ (c = 13 ∨ c = 10 ∨ c = 35)) : Stop x := by
+  rcases h with rfl | ⟨c, r, rfl, hc⟩
+  · trivial
+  · rcases hc with rfl | rfl | rfl <;> (show isFieldChar _ = false; decide)
+
+theorem readErrorBare_fwd {s : St} {g1 g : Gap} {n x : Bytes}
+    (hfit : (LMember.errorBare g1 n).fits = true)
+    (h : s.rest = renderGap g1 (n ++ renderGap g x))
+    (hg : g.dropWhile Atom.isSpTab ≠ [] ∨ x = [] ∨ ∃ r, x = 35 :: r)
+    (hnc : NoCrash (readError s)) :
+    ∃ s', readError s = .ok (.error n s.lastComment none, s') ∧
+      s'.rest = renderGap (g.dropWhile Atom.isSpTab) x ∧ Dirty s' := by
+  simp only [LMember.fits, Bool.and_eq_true, Bool.not_eq_true'] at hfit
+  obtain ⟨⟨hg1, _⟩, hn⟩ := hfit
+  unfold readError at hnc ⊢
+  obtain ⟨c, w, rfl, hc, hw⟩ := typeName_split hn
+  obtain ⟨s1, h1, hr1, _⟩ := advance_fwd h hg1 (tailOk_append (notLay_of_upper hc)) hnc.of_bind
+  rw [bind_ok_eq h1] at hnc ⊢
+  obtain ⟨b, hb, hball⟩ := gap_split_spTab g x
+  have hhead := gap_rest_head g x hg
+  have hstopx : Stop (renderGap g x) := by
+    rw [hb]
+    cases b with
+    | nil => exact stop_of_head hhead
+    | cons d b' =>
+      have := hball d List.mem_cons_self
+      simp only [isSpTab, Bool.or_eq_true, decide_eq_true_eq] at this
+      rcases this with rfl | rfl <;> (show isFieldChar _ = false; decide)
+  have h2 := readTypeName_fwd hr1 hc hw hstopx.alnum hnc.of_bind
+  rw [bind_ok_eq h2] at hnc ⊢
+  simp only at hnc ⊢
+  rw [if_neg (by simp)] at hnc ⊢
+  have hsp : StopAt isSpTab (renderGap (g.dropWhile Atom.isSpTab) x) := by
+    rcases hhead with h0 | ⟨d, r, h0, hd⟩ <;> rw [h0]
+    · trivial
+    · rcases hd with rfl | rfl | rfl <;> (show isSpTab _ = false; decide)
+  have h3 : advanceOnLine (s1.adv (c :: w) (renderGap g x)) =
+      .ok ((s1.adv (c :: w) (renderGap g x)).adv b (renderGap (g.dropWhile Atom.isSpTab) x)) :=
+    scan_fwd isSpTab b _ _ _ hb hball hsp hnc.of_bind
+  rw [bind_ok_eq h3] at hnc ⊢
+  have h4 := readType_nothing (s := (s1.adv (c :: w) (renderGap g x)).adv b (renderGap (g.dropWhile Atom.isSpTab) x))
+    hhead hnc.of_bind
+  rw [bind_ok_eq h4]
+  simp only [ne_eq, not_true_eq_false, ↓reduceIte]
+  exact ⟨_, rfl, rfl, dirty_adv_of_dirty (dirty_adv (isBlank_cons_false (notLay_of_upper hc)))⟩
+
+/-! ### the member loop -/
+
+/-- the gap behind the members read so far: in front of the next member, or at the end -/
+def nextGap (r : List (Gap × LMember)) (gEnd : Gap) : Gap :=
+  match r with
+  | [] => gEnd
+  | (g, _) :: _ => g
+
+/-- the text behind that gap -/
+def afterText (r : List (Gap × LMember)) (gEnd : Gap) (fc : Option Bytes) : Bytes :=
+  match r with
+  | [] => renderFinal fc
+  | (_, m) :: r' => m.render (renderMembers r' (renderGap gEnd (renderFinal fc)))
+
+theorem renderMembers_eq (r : List (Gap × LMember)) (gEnd : Gap) (fc : Option Bytes) :
+    renderMembers r (renderGap gEnd (renderFinal fc)) = renderGap (nextGap r gEnd) (afterText r gEnd fc) := by
+  cases r with
+  | nil => rfl
+  | cons p r => obtain ⟨g, m⟩ := p; rfl
+
+/-- a gap, or what an error without a type leaves of it (the spaces and tabs in front are consumed by
+    `advanceOnLine`) -/
+def GapRest (g g' : Gap) : Prop := g' = g ∨ g' = g.dropWhile Atom.isSpTab
+
+theorem dropWhile_wf : ∀ (g : Gap), g.wf = true → Gap.wf (g.dropWhile Atom.isSpTab) = true
+  | [], _ => rfl
+  | a :: g, h => by
+    simp only [Gap.wf, List.all_cons, Bool.and_eq_true] at h
+    simp only [List.dropWhile]
+    split
+    · exact dropWhile_wf g h.2
+    · simp [Gap.wf, h.1, h.2]
+
+theorem GapRest.wf {g g' : Gap} (h : GapRest g g') (hw : g.wf = true) : g'.wf = true := by
+  rcases h with rfl | rfl
+  · exact hw
+  · exact dropWhile_wf g hw
+
+theorem gapDoc_dropWhile : ∀ (g : Gap) (st : Bool × Bytes), gapDoc st (g.dropWhile Atom.isSpTab) = gapDoc st g
+  | [], _ => rfl
+  | a :: g, st => by
+    simp only [List.dropWhile]
+    split
+    · rename_i ha
+      have : docStep st a = st := by cases a <;> simp_all [Atom.isSpTab, docStep]
+      rw [gapDoc_dropWhile g st]
+      simp [gapDoc, this]
+    · rfl
+
+theorem gapDoc_break : ∀ (g : Gap) (lc : Bytes), g.hasBreak = true → gapDoc (false, lc) g = gapDoc (false, []) g
+  | [], _, h => by simp [Gap.hasBreak] at h
+  | a :: g, lc, h => by
+    simp only [Gap.hasBreak, List.any_cons, Bool.or_eq_true] at h
+    cases a with
+    | sp => simp only [gapDoc, List.foldl_cons, docStep]; exact gapDoc_break g lc (by simpa [Atom.isBreak, Gap.hasBreak] using h)
+    | tab => simp only [gapDoc, List.foldl_cons, docStep]; exact gapDoc_break g lc (by simpa [Atom.isBreak, Gap.hasBreak] using h)
+    | cr => simp only [gapDoc, List.foldl_cons, docStep]; exact gapDoc_break g lc (by simpa [Atom.isBreak, Gap.hasBreak] using h)
+    | nl => simp [gapDoc, docStep]
+    | comment t => simp [gapDoc, docStep]
+
+theorem doc_of_gapRest {s : St} {g g' : Gap} (hd : Dirty s) (hb : g.hasBreak = true) (h : GapRest g g') :
+    (gapDoc (dst s) g').2 = docOf g := by
+  have : dst s = (false, s.lastComment) := by unfold dst; rw [show isBlank s.line = false from hd]
+  rw [this]
+  rcases h with rfl | rfl
+  · rw [gapDoc_break _ _ hb]; rfl
+  · rw [gapDoc_dropWhile, gapDoc_break _ _ hb]; rfl
+
+theorem dropWhile_ne_nil_of_break : ∀ (g : Gap), g.hasBreak = true → g.dropWhile Atom.isSpTab ≠ []
+  | [], h => by simp [Gap.hasBreak] at h
+  | a :: g, h => by
+    simp only [Gap.hasBreak, List.any_cons, Bool.or_eq_true] at h
+    simp only [List.dropWhile]
+    split
+    · rename_i ha
+      apply dropWhile_ne_nil_of_break g
+      rcases h with h | h
+      · cases a <;> simp_all [Atom.isSpTab, Atom.isBreak]
+      · exact h
+    · simp
+
+theorem renderFinal_head (fc : Option Bytes) : renderFinal fc = [] ∨ ∃ r, renderFinal fc = 35 :: r := by
+  cases fc with
+  | none => exact Or.inl rfl
+  | some t => exact Or.inr ⟨t, rfl⟩
+
+/-- behind a member: a gap with a line break, or the end gap and possibly a last comment -/
+theorem after_member_ok (r : List (Gap × LMember)) (gEnd : Gap) (fc : Option Bytes) (hr : membersFit r = true) :
+    (nextGap r gEnd).dropWhile Atom.isSpTab ≠ [] ∨ afterText r gEnd fc = [] ∨ ∃ x, afterText r gEnd fc = 35 :: x := by
+  cases r with
+  | nil => exact Or.inr (renderFinal_head fc)
+  | cons p r =>
+    obtain ⟨g, m⟩ := p
+    simp only [membersFit, Bool.and_eq_true] at hr
+    exact Or.inl (dropWhile_ne_nil_of_break g hr.1.1.2)
+
+theorem stop_after_member (r : List (Gap × LMember)) (gEnd : Gap) (fc : Option Bytes) (hr : membersFit r = true) :
+    Stop (renderGap (nextGap r gEnd) (afterText r gEnd fc)) := by
+  obtain ⟨b, hb, hball⟩ := gap_split_spTab (nextGap r gEnd) (afterText r gEnd fc)
+  have hhead := gap_rest_head _ _ (after_member_ok r gEnd fc hr)
+  rw [hb]
+  cases b with
+  | nil => exact stop_of_head hhead
+  | cons d b' =>
+    have := hball d List.mem_cons_self
+    simp only [isSpTab, Bool.or_eq_true, decide_eq_true_eq] at this
+    rcases this with rfl | rfl <;> (show isFieldChar _ = false; decide)
+
+theorem nextGap_wf (r : List (Gap × LMember)) (gEnd : Gap) (hr : membersFit r = true) (hE : gEnd.wf = true) :
+    (nextGap r gEnd).wf = true := by
+  cases r with
+  | nil => exact hE
+  | cons p r =>
+    obtain ⟨g, m⟩ := p
+    simp only [membersFit, Bool.and_eq_true] at hr
+    exact hr.1.1.1
+
+theorem more_of_wf {s : St} (hw : WF s) : s.more = !s.rest.isEmpty := by
+  have := hw.1
+  cases hr : s.rest with
+  | nil => simp [St.more, hr] at this ⊢; omega
+  | cons c r => simp [St.more, hr] at this ⊢; omega
+
+theorem sat_ok {α} {o : Out α} {P : α → Prop} {a : α} (h : o.Sat P) (he : o = .ok a) : P a := by
+  subst he; exact h
+
+theorem membersLoop_fwd (gEnd : Gap) (fc : Option Bytes) (hE : gEnd.wf = true)
+    (hfc : (match fc with | none => true | some t => t.all (fun c => c != 10)) = true) :
+    ∀ (r : List (Gap × LMember)) (f : Nat) (s : St) (g' : Gap) (names : List Bytes) (acc : List Member),
+    membersFit r = true → GapRest (nextGap r gEnd) g' → s.rest = renderGap g' (afterText r gEnd fc) →
+    WF s → s.rest.length < f → Dirty s →
+    (∀ p ∈ r, p.2.name ∉ names) → uniqueNames (r.map fun p => p.2.name) = true →
+    ∃ s', membersLoop f s names acc = .ok (acc.reverse ++ r.map (fun p => p.2.erase (docOf p.1)), s') := by
+  intro r
+  induction r with
+  | nil =>
+    intro f s g' names acc _ hgr h hw hf _ _ _
+    have hnc : NoCrash (membersLoop f s names acc) := (membersLoop_sat f s names acc hw hf).noCrash
+    obtain ⟨f0, rfl⟩ : ∃ f0, f = f0 + 1 := by
+      cases f with
+      | zero => exact absurd rfl hnc.2
+      | succ f0 => exact ⟨f0, rfl⟩
+    unfold membersLoop at hnc ⊢
+    obtain ⟨s1, h1, hr1⟩ := advanceLoop_fwd_end g' _ s fc h (hgr.wf hE) hfc hnc.of_bind
+    have hw1 : WF s1 := (sat_ok (advance_sat hw) h1).1
+    rw [show advance s = .ok s1 from h1, bind_ok_eq rfl]
+    rw [if_pos (by rw [more_of_wf hw1, hr1]; rfl)]
+    exact ⟨s1, by simp⟩
+  | cons p r ih =>
+    obtain ⟨g, m⟩ := p
+    intro f s g' names acc hfit hgr h hw hf hdirty hnames huniq
+    simp only [membersFit, Bool.and_eq_true] at hfit
+    obtain ⟨⟨⟨hgw, hgb⟩, hm⟩, hrfit⟩ := hfit
+    simp only [nextGap] at hgr
+    simp only [afterText] at h
+    rw [renderMembers_eq] at h
+    have hnc : NoCrash (membersLoop f s names acc) := (membersLoop_sat f s names acc hw hf).noCrash
+    obtain ⟨f0, rfl⟩ : ∃ f0, f = f0 + 1 := by
+      cases f with
+      | zero => exact absurd rfl hnc.2
+      | succ f0 => exact ⟨f0, rfl⟩
+    -- facts used by all four member shapes
+    have hnotin : m.name ∉ names := hnames (g, m) List.mem_cons_self
+    have huniq' : uniqueNames (r.map fun p => p.2.name) = true ∧ m.name ∉ r.map (fun p => p.2.name) := by
+      simp only [List.map_cons, uniqueNames, Bool.and_eq_true, Bool.not_eq_true'] at huniq
+      exact ⟨huniq.2, by simpa using huniq.1⟩
+    have hnames' : ∀ p ∈ r, p.2.name ∉ m.name :: names := by
+      intro p hp hmem
+      rcases List.mem_cons.mp hmem with he | hmem
+      · exact huniq'.2 (by rw [← he]; exact List.mem_map_of_mem (f := fun p => p.2.name) hp)
+      · exact hnames p (List.mem_cons_of_mem _ hp) hmem
+    have hstopX := stop_after_member r gEnd fc hrfit
+    have hdoc : ∀ s1, dst s1 = gapDoc (dst s) g' → s1.lastComment = docOf g := by
+      intro s1 hd
+      have := doc_of_gapRest hdirty hgb hgr
+      rw [← hd] at this
+      exact this
+    unfold membersLoop at hnc ⊢
+    -- the continuation, once the member reader has delivered
+    have cont : ∀ (s3 : St) (g'' : Gap) (mem : Member) (e : PErr), mem = m.erase (docOf g) →
+        GapRest (nextGap r gEnd) g'' → s3.rest = renderGap g'' (afterText r gEnd fc) → Step s s3 → s.pos < s3.pos →
+        Dirty s3 →
+        ∃ s', (if names.contains mem.name = true then (Out.err e : Out (List Member × St))
+          else membersLoop f0 s3 (mem.name :: names) (mem :: acc)) =
+          .ok (acc.reverse ++ ((g, m) :: r).map (fun p => p.2.erase (docOf p.1)), s') := by
+      intro s3 g'' mem e hmem hgr3 hr3 hst3 hpos3 hd3
+      have hname : mem.name = m.name := by subst hmem; cases m <;> rfl
+      rw [if_neg (by rw [hname]; simpa using hnotin)]
+      have hlt : s3.rest.length < f0 := by have := Step.rest_lt hw hst3 hpos3; omega
+      obtain ⟨s', h'⟩ := ih f0 s3 g'' (mem.name :: names) (mem :: acc) hrfit hgr3 hr3 hst3.1 hlt hd3
+        (by rw [hname]; exact hnames') huniq'.1
+      exact ⟨s', by rw [h', hmem]; simp⟩
+    cases m with
+    | alias g1 n g4 t =>
+      have hfitm := hm
+      simp only [LMember.fits, Bool.and_eq_true, Bool.not_eq_true'] at hm
+      simp only [LMember.render] at h
+      obtain ⟨s1, h1, hr1, hd1⟩ := advance_fwd h (hgr.wf hgw) (by exact (by decide : isLay 116 = false)) hnc.of_bind
+      have hst1 : Step s s1 := sat_ok (advance_sat hw) h1
+      rw [bind_ok_eq h1] at hnc ⊢
+      rw [if_neg (by rw [more_of_wf hst1.1, hr1]; simp [tType])] at hnc ⊢
+      have h2 := readKeyword_lit (k := tType) (by decide) hr1
+        (stop_renderGap_of g1 _ (Or.inl hm.1.1.1.1.2)) hnc.of_bind
+      have hst2 := sat_ok (readKeyword_sat hst1.1) h2
+      rw [bind_ok_eq h2] at hnc ⊢
+      simp only at hnc ⊢
+      rw [if_pos (show tType = kwType from rfl)] at hnc ⊢
+      have hsat3 := readAlias_sat hst2.1.1
+      obtain ⟨s3, h3, hr3, hd3⟩ := readAlias_fwd hfitm rfl hstopX hsat3.noCrash
+      have hst3 := sat_ok hsat3 h3
+      rw [bind_ok_eq h3]
+      exact cont s3 _ _ _ (by simp [LMember.erase, St.adv, hdoc s1 hd1]) (Or.inl rfl) hr3
+        ((hst1.trans hst2.1).trans hst3)
+        (by have := hst2.2 (by simp [tType]); have := hst1.2.2; have := hst3.2.2; simp only at *; omega) hd3
+    | method g1 n g4 i g5 g5' o =>
+      have hfitm := hm
+      simp only [LMember.fits, Bool.and_eq_true, Bool.not_eq_true'] at hm
+      simp only [LMember.render] at h
+      obtain ⟨s1, h1, hr1, hd1⟩ := advance_fwd h (hgr.wf hgw) (by exact (by decide : isLay 109 = false)) hnc.of_bind
+      have hst1 : Step s s1 := sat_ok (advance_sat hw) h1
+      rw [bind_ok_eq h1] at hnc ⊢
+      rw [if_neg (by rw [more_of_wf hst1.1, hr1]; simp [tMethod])] at hnc ⊢
+      have h2 := readKeyword_lit (k := tMethod) (by decide) hr1
+        (stop_renderGap_of g1 _ (Or.inl hm.1.1.1.1.1.1.1.2)) hnc.of_bind
+      have hst2 := sat_ok (readKeyword_sat hst1.1) h2
+      rw [bind_ok_eq h2] at hnc ⊢
+      simp only at hnc ⊢
+      rw [if_neg (show ¬ tMethod = kwType by decide), if_pos (show tMethod = kwMethod from rfl)] at hnc ⊢
+      have hsat3 := readMethod_sat hst2.1.1
+      obtain ⟨s3, h3, hr3, hd3⟩ := readMethod_fwd hfitm rfl hstopX hsat3.noCrash
+      have hst3 := sat_ok hsat3 h3
+      rw [bind_ok_eq h3]
+      exact cont s3 _ _ _ (by simp [LMember.erase, St.adv, hdoc s1 hd1]) (Or.inl rfl) hr3
+        ((hst1.trans hst2.1).trans hst3)
+        (by have := hst2.2 (by simp [tMethod]); have := hst1.2.2; have := hst3.2.2; simp only at *; omega) hd3
+    | errorBare g1 n =>
+      have hfitm := hm
+      simp only [LMember.fits, Bool.and_eq_true, Bool.not_eq_true'] at hm
+      simp only [LMember.render] at h
+      obtain ⟨s1, h1, hr1, hd1⟩ := advance_fwd h (hgr.wf hgw) (by exact (by decide : isLay 101 = false)) hnc.of_bind
+      have hst1 : Step s s1 := sat_ok (advance_sat hw) h1
+      rw [bind_ok_eq h1] at hnc ⊢
+      rw [if_neg (by rw [more_of_wf hst1.1, hr1]; simp [tError])] at hnc ⊢
+      have h2 := readKeyword_lit (k := tError) (by decide) hr1
+        (stop_renderGap_of g1 _ (Or.inl hm.1.2)) hnc.of_bind
+      have hst2 := sat_ok (readKeyword_sat hst1.1) h2
+      rw [bind_ok_eq h2] at hnc ⊢
+      simp only at hnc ⊢
+      rw [if_neg (show ¬ tError = kwType by decide), if_neg (show ¬ tError = kwMethod by decide),
+        if_pos (show tError = kwError from rfl)] at hnc ⊢
+      have hsat3 := readError_sat hst2.1.1
+      obtain ⟨s3, h3, hr3, hd3⟩ := readErrorBare_fwd hfitm rfl (after_member_ok r gEnd fc hrfit) hsat3.noCrash
+      have hst3 := sat_ok hsat3 h3
+      rw [bind_ok_eq h3]
+      exact cont s3 _ _ _ (by simp [LMember.erase, St.adv, hdoc s1 hd1]) (Or.inr rfl) hr3
+        ((hst1.trans hst2.1).trans hst3)
+        (by have := hst2.2 (by simp [tError]); have := hst1.2.2; have := hst3.2.2; simp only at *; omega) hd3
+    | error g1 n g6 t =>
+      have hfitm := hm
+      simp only [LMember.fits, Bool.and_eq_true, Bool.not_eq_true'] at hm
+      simp only [LMember.render] at h
+      obtain ⟨s1, h1, hr1, hd1⟩ := advance_fwd h (hgr.wf hgw) (by exact (by decide : isLay 101 = false)) hnc.of_bind
+      have hst1 : Step s s1 := sat_ok (advance_sat hw) h1
+      rw [bind_ok_eq h1] at hnc ⊢
+      rw [if_neg (by rw [more_of_wf hst1.1, hr1]; simp [tError])] at hnc ⊢
+      have h2 := readKeyword_lit (k := tError) (by decide) hr1
+        (stop_renderGap_of g1 _ (Or.inl hm.1.1.1.1.2)) hnc.of_bind
+      have hst2 := sat_ok (readKeyword_sat hst1.1) h2
+      rw [bind_ok_eq h2] at hnc ⊢
+      simp only at hnc ⊢
+      rw [if_neg (show ¬ tError = kwType by decide), if_neg (show ¬ tError = kwMethod by decide),
+        if_pos (show tError = kwError from rfl)] at hnc ⊢
+      have hsat3 := readError_sat hst2.1.1
+      obtain ⟨s3, h3, hr3, hd3⟩ := readError_fwd hfitm rfl hstopX hsat3.noCrash
+      have hst3 := sat_ok hsat3 h3
+      rw [bind_ok_eq h3]
+      exact cont s3 _ _ _ (by simp [LMember.erase, St.adv, hdoc s1 hd1]) (Or.inl rfl) hr3
+        ((hst1.trans hst2.1).trans hst3)
+        (by have := hst2.2 (by simp [tError]); have := hst1.2.2; have := hst3.2.2; simp only at *; omega) hd3
+
+/-! ### the interface name, readIDL, New -/
+
+theorem dnScan_append (H N : UInt8 → Bool) {X : Bytes}
+    (hX : X = [] ∨ ∃ c r, X = c :: r ∧ H c = false ∧ N c = false ∧ c ≠ 46 ∧ c ≠ 45) :
+    ∀ (w : Bytes) (st : DnState) (cur best : Nat), dnScan H N st cur best (w ++ X) = dnScan H N st cur best w := by
+  intro w
+  induction w with
+  | nil =>
+    intro st cur best
+    rcases hX with rfl | ⟨c, r, rfl, h1, h2, h3, h4⟩
+    · rfl
+    · cases st <;> simp [dnScan, h1, h2, h3, h4]
+  | cons c w ih =>
+    intro st cur best
+    cases st <;> simp only [List.cons_append, dnScan, ih]
+
+theorem lay_stops_name {c : UInt8} (h : isLay c = true) :
+    isAlpha c = false ∧ isAlnum c = false ∧ isLowerDigit c = false ∧ c ≠ 46 ∧ c ≠ 45 := by
+  simp only [isLay, Bool.or_eq_true, decide_eq_true_eq] at h
+  rcases h with (((rfl | rfl) | rfl) | rfl) | rfl <;> decide
+
+theorem matchDn_append {n X : Bytes} (hX : X = [] ∨ ∃ c r, X = c :: r ∧ isLay c = true) :
+    matchDn (n ++ X) = matchDn n := by
+  unfold matchDn
+  apply dnScan_append
+  rcases hX with h | ⟨c, r, h, hc⟩
+  · exact Or.inl h
+  · obtain ⟨h1, h2, _, h4, h5⟩ := lay_stops_name hc
+    exact Or.inr ⟨c, r, h, h1, h2, h4, h5⟩
+
+theorem matchXdn_append {n X : Bytes} (hn : matchXdn n ≠ 0) (hX : X = [] ∨ ∃ c r, X = c :: r ∧ isLay c = true) :
+    matchXdn (n ++ X) = matchXdn n := by
+  unfold matchXdn at hn ⊢
+  split at hn
+  · rename_i r
+    simp only [List.cons_append]
+    rw [dnScan_append isLowerDigit isLowerDigit (X := X)]
+    rcases hX with h | ⟨c, r', h, hc⟩
+    · exact Or.inl h
+    · obtain ⟨_, _, h3, h4, h5⟩ := lay_stops_name hc
+      exact Or.inr ⟨c, r', h, h3, h3, h4, h5⟩
+  · exact absurd rfl hn
+
+theorem skipN_eq_adv {s : St} {n X : Bytes} (h : s.rest = n ++ X) : skipN n.length s = s.adv n X := by
+  simp [skipN, St.adv, h]
+
+theorem readInterfaceName_fwd {s : St} {n X : Bytes} (hn : isInterfaceNameB n = true) (h : s.rest = n ++ X)
+    (hX : X = [] ∨ ∃ c r, X = c :: r ∧ isLay c = true) (hnc : NoCrash (readInterfaceName s)) :
+    readInterfaceName s = .ok (n, s.adv n X) := by
+  simp only [isInterfaceNameB, Bool.and_eq_true, decide_eq_true_eq, bne_iff_ne, ne_eq, Bool.or_eq_true,
+    beq_iff_eq] at hn
+  obtain ⟨⟨hlen, hne⟩, hm⟩ := hn
+  have hlen0 : n.length ≠ 0 := fun h0 => hne (List.eq_nil_of_length_eq_zero h0)
+  unfold readInterfaceName at hnc ⊢
+  split at hnc
+  · exact absurd rfl hnc.1
+  · rename_i hg
+    rw [if_neg hg]
+    dsimp only
+    have htake : s.rest.take n.length = n := by rw [h]; simp
+    have hd : matchDn s.rest = matchDn n := by rw [h, matchDn_append hX]
+    rw [hd]
+    rcases hm with hm | ⟨hm0, hmx⟩
+    · rw [hm, if_pos hlen0, if_neg (by omega), htake, skipN_eq_adv h]
+    · rw [hm0]
+      simp only [ne_eq, not_true_eq_false, ↓reduceIte]
+      have hx : matchXdn s.rest = matchXdn n := by rw [h, matchXdn_append (by rw [hmx]; exact hlen0) hX]
+      rw [hx, hmx, if_pos hlen0, if_neg (by omega), htake, skipN_eq_adv h]
+
+theorem gapDoc_blank : ∀ (g : Gap) (st : Bool × Bytes), g.blank = true → gapDoc st g = st
+  | [], _, _ => rfl
+  | a :: g, st, h => by
+    simp only [Gap.blank, List.all_cons, Bool.and_eq_true] at h
+    have : docStep st a = st := by cases a <;> simp_all [Atom.isBlank, docStep]
+    simp only [gapDoc, List.foldl_cons, this]
+    exact gapDoc_blank g st h.2
+
+theorem blank_wf : ∀ (g : Gap), g.blank = true → g.wf = true
+  | [], _ => rfl
+  | a :: g, h => by
+    simp only [Gap.blank, List.all_cons, Bool.and_eq_true] at h
+    simp only [Gap.wf, List.all_cons, Bool.and_eq_true]
+    exact ⟨by cases a <;> simp_all [Atom.isBlank, Atom.wf], blank_wf g h.2⟩
+
+theorem interfaceName_head {n : Bytes} (hn : isInterfaceNameB n = true) : ∃ c w, n = c :: w ∧ isLay c = false := by
+  simp only [isInterfaceNameB, Bool.and_eq_true, decide_eq_true_eq, bne_iff_ne, ne_eq, Bool.or_eq_true,
+    beq_iff_eq] at hn
+  obtain ⟨⟨_, hne⟩, hm⟩ := hn
+  cases n with
+  | nil => exact absurd rfl hne
+  | cons c w =>
+    refine ⟨c, w, rfl, ?_⟩
+    rcases hm with hm | ⟨_, hmx⟩
+    · have := matchDn_tok (c :: w)
+      rw [hm] at this
+      simp only [List.take_length] at this
+      exact this c List.mem_cons_self
+    · have := matchXdn_tok (c :: w)
+      rw [hmx] at this
+      simp only [List.take_length] at this
+      exact this c List.mem_cons_self
+
+theorem members_nonempty_head (ms : List (Gap × LMember)) (gEnd : Gap) (fc : Option Bytes)
+    (hfit : membersFit ms = true) (hm : ms.any (fun p => p.2.isMethod) = true) :
+    ∃ c r, renderMembers ms (renderGap gEnd (renderFinal fc)) = c :: r ∧ isLay c = true := by
+  cases ms with
+  | nil => simp at hm
+  | cons p ms =>
+    obtain ⟨g, m⟩ := p
+    simp only [membersFit, Bool.and_eq_true] at hfit
+    have hb := hfit.1.1.2
+    cases g with
+    | nil => simp [Gap.hasBreak] at hb
+    | cons a g =>
+      obtain ⟨c, r, hr, hc⟩ := a.render_head
+      exact ⟨c, r ++ renderGap g (m.render (renderMembers ms (renderGap gEnd (renderFinal fc)))),
+        by simp [renderMembers, renderGap, hr], hc⟩
+
+theorem erase_isMethod (m : LMember) (d : Bytes) : (m.erase d).isMethod = m.isMethod := by
+  cases m <;> rfl
+
+theorem methods_ne_zero (ms : List (Gap × LMember)) (hm : ms.any (fun p => p.2.isMethod) = true) :
+    ((ms.map fun p => p.2.erase (docOf p.1)).filter Member.isMethod).length ≠ 0 := by
+  induction ms with
+  | nil => simp at hm
+  | cons p ms ih =>
+    simp only [List.any_cons, Bool.or_eq_true] at hm
+    simp only [List.map_cons, List.filter_cons, erase_isMethod]
+    split
+    · simp
+    · rename_i hp
+      rcases hm with hm | hm
+      · exact absurd hm hp
+      · exact ih hm
+
+/-- **Parse what was rendered**: a description rendered from a layouted tree inside the grammar is accepted with
+    exactly the tree it denotes. -/
+theorem New_render (L : LIdl) (hfit : L.fits = true) : New L.render = .ok L.tree := by
+  simp only [LIdl.fits, Bool.and_eq_true, Bool.not_eq_true'] at hfit
+  obtain ⟨⟨⟨⟨⟨⟨⟨⟨hg0, hig1b⟩, hig1ne⟩, hname⟩, hms⟩, huniq⟩, hmeth⟩, hE⟩, hfc⟩ := hfit
+  have hsat := New_sat L.render
+  unfold New at hsat ⊢
+  have hw0 := initSt_wf L.render
+  -- the gap in front of `interface`
+  have hr0 : (initSt L.render).rest = renderGap L.g0 (tInterface ++ renderGap L.ig1 (L.name ++
+      renderMembers L.members (renderGap L.gEnd (renderFinal L.finalComment)))) := rfl
+  obtain ⟨s, h1, hr1, hd1⟩ := advance_fwd hr0 hg0 (by exact (by decide : isLay 105 = false)) (advance_sat hw0).noCrash
+  have hst1 : Step (initSt L.render) s := sat_ok (advance_sat hw0) h1
+  rw [bind_ok_eq h1]
+  have hdoc1 : s.lastComment = docOfStart L.g0 := by
+    have : dst (initSt L.render) = (true, []) := rfl
+    rw [this] at hd1
+    exact congrArg Prod.snd hd1
+  -- readIDL
+  have hidl : ∃ s4, readIDL s = .ok (Idl.mk L.name (docOfStart L.g0) []
+      (L.members.map fun p => p.2.erase (docOf p.1)), s4) := by
+    have hnc2 := (readIDL_sat hst1.1).noCrash
+    unfold readIDL at hnc2 ⊢
+    have hig1 : L.ig1.isEmpty = false := by simpa using hig1ne
+    have h2 := readKeyword_lit (k := tInterface) (by decide) hr1 (stop_renderGap_of L.ig1 _ (Or.inl hig1)) hnc2.of_bind
+    have hst2 := (sat_ok (readKeyword_sat hst1.1) h2).1
+    rw [bind_ok_eq h2] at hnc2 ⊢
+    simp only at hnc2 ⊢
+    rw [if_neg (by simp [tInterface, kwInterface])] at hnc2 ⊢
+    obtain ⟨c, w, hcw, hc⟩ := interfaceName_head hname
+    obtain ⟨s2, h3, hr3, hd3⟩ := advance_fwd (s := s.adv tInterface (renderGap L.ig1 (L.name ++
+        renderMembers L.members (renderGap L.gEnd (renderFinal L.finalComment))))) (g := L.ig1)
+      (tail := L.name ++ renderMembers L.members (renderGap L.gEnd (renderFinal L.finalComment))) rfl (blank_wf _ hig1b)
+      (by rw [hcw]; exact tailOk_append hc) hnc2.of_bind
+    have hst3 := sat_ok (advance_sat hst2.1) h3
+    rw [bind_ok_eq h3] at hnc2 ⊢
+    have hdoc2 : s2.lastComment = docOfStart L.g0 := by
+      rw [gapDoc_blank _ _ hig1b] at hd3
+      have := congrArg Prod.snd hd3
+      simpa [dst, St.adv, hdoc1] using this
+    obtain ⟨d, r, hdr, hdl⟩ := members_nonempty_head L.members L.gEnd L.finalComment hms hmeth
+    have h4 := readInterfaceName_fwd hname hr3 (Or.inr ⟨d, r, hdr, hdl⟩) hnc2.of_bind
+    have hst4 := sat_ok (readInterfaceName_sat hst3.1) h4
+    rw [bind_ok_eq h4] at hnc2 ⊢
+    simp only at hnc2 ⊢
+    have hne : L.name ≠ [] := by rw [hcw]; simp
+    rw [if_neg (by simpa using hne)] at hnc2 ⊢
+    have hdirty : Dirty (s2.adv L.name (renderMembers L.members (renderGap L.gEnd (renderFinal L.finalComment)))) := by
+      rw [hcw]; exact dirty_adv (isBlank_cons_false hc)
+    obtain ⟨s4, h5⟩ := membersLoop_fwd L.gEnd L.finalComment hE hfc L.members
+      ((s2.adv L.name (renderMembers L.members (renderGap L.gEnd (renderFinal L.finalComment)))).len + 2)
+      (s2.adv L.name (renderMembers L.members (renderGap L.gEnd (renderFinal L.finalComment))))
+      (nextGap L.members L.gEnd) [] []
+      hms (Or.inl rfl) (by rw [← renderMembers_eq]; rfl) hst4.1 (by have := hst4.1.rest_le_len; simp only at this ⊢; omega)
+      hdirty (fun _ _ h => absurd h List.not_mem_nil) huniq
+    rw [bind_ok_eq h5]
+    exact ⟨s4, by simp [hdoc2]⟩
+  obtain ⟨s4, hidl⟩ := hidl
+  rw [bind_ok_eq hidl]
+  simp only
+  rw [if_neg (by simpa [Idl.methods] using methods_ne_zero L.members hmeth)]
+  rfl
+end Varlink.Idl
